@@ -312,25 +312,59 @@ func registerIntercepts(e *Engine) {
 
 	// ---- time ----
 	e.reg("time.Sleep", noop)
+	// Virtual clock: (seconds, milliseconds) pairs, advanced only by zzv.ClockStep. A Time carries the
+	// pair; Sub produces the nanosecond count together with its (seconds, milliseconds) decomposition,
+	// so that Duration.Seconds() can be computed exactly as the standard library does
+	// (float64(sec) + float64(nsec)/1e9) without a 64-bit division by 10^9.
 	e.reg("time.Now", func(c *CallCtx, st *State, args []Value) []Outcome {
 		en := c.E
-		cell := en.namedCell(st, "clock.ticks", func() Value { return smt.IntC(1) })
+		sc := en.namedCell(st, "clock.sec", func() Value { return smt.IntC(1700000000) })
+		mc := en.namedCell(st, "clock.ms", func() Value { return smt.BVC(0, 64) })
 		t := Zero(en.typeOf("time", "Time")).(*StructV)
 		nf := append([]Value(nil), t.F...)
-		nf[0] = smt.BVC(1, 64)
-		nf[1] = st.heap[cell]
+		nf[0] = st.heap[mc]
+		nf[1] = st.heap[sc]
 		return one(st, &StructV{F: nf})
 	})
 	e.reg("(time.Time).IsZero", func(c *CallCtx, st *State, args []Value) []Outcome {
 		t := args[0].(*StructV)
+		// only the literal zero value Time{} is zero: instants of the virtual clock start at
+		// 1700000000 s and only move forward (ClockStep arguments are non-negative)
+		if sec := t.F[1].(*smt.Term); !sec.IsConst() {
+			return one(st, smt.False)
+		}
 		return one(st, smt.And(smt.Eq(t.F[0].(*smt.Term), smt.BVC(0, 64)), smt.Eq(t.F[1].(*smt.Term), smt.IntC(0))))
 	})
 	e.reg("(time.Time).Sub", func(c *CallCtx, st *State, args []Value) []Outcome {
-		return one(st, smt.IntC(1))
+		t, u := args[0].(*StructV), args[1].(*StructV)
+		// components are kept as plain sums (no carry): the difference cancels everything both
+		// instants share, e.g. (t0 + a + tick) - (t0 + a) = tick
+		ds := smt.LinNorm(smt.Sub(t.F[1].(*smt.Term), u.F[1].(*smt.Term)))
+		dm := smt.LinNorm(smt.Sub(t.F[0].(*smt.Term), u.F[0].(*smt.Term)))
+		d := smt.Add(smt.BVBin(smt.OpBVMul, ds, smt.IntC(1000000000)), smt.BVBin(smt.OpBVMul, dm, smt.IntC(1000000)))
+		c.E.durParts[d] = [2]*smt.Term{ds, dm}
+		return one(st, d)
 	})
 	e.reg("(time.Duration).Seconds", func(c *CallCtx, st *State, args []Value) []Outcome {
-		cell := c.E.namedCell(st, "clock.dt", func() Value { return smt.FPC(0) })
-		return one(st, st.heap[cell])
+		d := args[0].(*smt.Term)
+		p, ok := c.E.durParts[d]
+		if !ok {
+			if d.IsConst() {
+				return one(st, smt.FPC(float64(d.SInt()/1000000000)+float64(d.SInt()%1000000000)/1e9))
+			}
+			c.E.abort("Duration.Seconds() of a duration that does not come from the virtual clock")
+		}
+		// the millisecond component may have accumulated several steps: carry up to 8 seconds
+		// (a harness makes a handful of ClockStep calls with ms < 1000 each) and borrow one
+		ds, dm := p[0], p[1]
+		sec, ms := smt.Sub(ds, smt.IntC(1)), smt.Add(dm, smt.IntC(1000))
+		for k := int64(0); k <= 8; k++ {
+			inBand := smt.And(smt.Sle(smt.IntC(1000*k), dm), smt.Slt(dm, smt.IntC(1000*(k+1))))
+			sec = smt.Ite(inBand, smt.Add(ds, smt.IntC(k)), sec)
+			ms = smt.Ite(inBand, smt.Sub(dm, smt.IntC(1000*k)), ms)
+		}
+		nsec := smt.BVBin(smt.OpBVMul, ms, smt.IntC(1000000))
+		return one(st, smt.FPBin(smt.OpFPAdd, smt.SBVToFP(sec, smt.FP64), smt.FPBin(smt.OpFPDiv, smt.SBVToFP(nsec, smt.FP64), smt.FPC(1e9))))
 	})
 	e.reg("time.NewTicker", func(c *CallCtx, st *State, args []Value) []Outcome {
 		en := c.E
